@@ -16,3 +16,5 @@ def run(ctx, rep):
     misc.rule_expanders_free_null(mod, rep)
     from ..rules import more
     more.rule_meminit_refact(mod, rep)
+    from ..rules import more2
+    more2.rule_stack_pop(mod, rep)
